@@ -64,13 +64,15 @@ theorem nak_when_not_bound {σ : Type} (S : Store σ) (c : SrvCfg) (db : IPDB σ
     (handleV S c db rx o).2 = .nak := Proofs.Decision.nak_when_not_bound S c db rx o want hreq hmac hself hw hin hnb
 
 /-- The classification is the RFC 2131 table: selecting ⇔ broadcast, server identifier = this
-server, requested address present; renewing ⇔ unicast to this server with neither option; … -/
-theorem classify_table (self dst : Ip4) (sid req : Option Ip4) :
+server, requested address present; renewing ⇔ unicast to this server with neither option; …
+(for a server address other than the limited broadcast address: with `self = 255.255.255.255` a
+broadcast REQUEST with neither option classifies as renewing, not rebinding). -/
+theorem classify_table (self dst : Ip4) (sid req : Option Ip4) (hs : self ≠ Ip4.bcast) :
     (classify self dst sid req = .selecting ↔ dst = Ip4.bcast ∧ sid = some self ∧ req ≠ none) ∧
     (classify self dst sid req = .initReboot ↔ dst = Ip4.bcast ∧ sid = none ∧ req ≠ none) ∧
     (classify self dst sid req = .renewing ↔ dst = self ∧ dst ≠ Ip4.bcast ∧ sid = none ∧ req = none) ∧
     (classify self dst sid req = .rebinding ↔ dst = Ip4.bcast ∧ sid = none ∧ req = none) :=
-  Proofs.Decision.classify_table self dst sid req
+  Proofs.Decision.classify_table self dst sid req hs
 
 /-- The `panic("desiredIP is nil")` of `handleRequest` is unreachable: every non-bogus class
 designates an address. -/
